@@ -23,6 +23,8 @@ func dumpAll(a Arguments, depth int) reflect.Value {
 	dumpScopeVars(&b, a.runtime.scope, 0)
 	dumpScopeVarsToDepth(&b, a.runtime.parent, depth)
 
+	a.runtime.set.gmx.RLock()
+	defer a.runtime.set.gmx.RUnlock() // deferred: printing a value may panic
 	vars = a.runtime.set.globals
 	for i, name := range vars.SortedKeys() {
 		if i == 0 {
